@@ -20,6 +20,32 @@ from .project import ids, kind_of, NVERT, find_scale, int_coords, fx
 logging.getLogger('skfem').setLevel(logging.ERROR)      # "Replace ElementLinePp(1) by ..." advice is not an observation
 
 
+class LogCapture(logging.Handler):
+    """Collects the messages the library logs at WARNING level or above while a block runs (they are observations)."""
+
+    def __init__(self):
+        super().__init__(level=logging.WARNING)
+        self.records = []
+
+    def emit(self, record):
+        self.records.append(record.getMessage())
+
+    def __enter__(self):
+        self.lg = logging.getLogger('skfem')
+        self.old = self.lg.level
+        self.lg.setLevel(logging.WARNING)
+        self.lg.addHandler(self)
+        self.prop = self.lg.propagate
+        self.lg.propagate = False
+        return self
+
+    def __exit__(self, *a):
+        self.lg.removeHandler(self)
+        self.lg.setLevel(self.old)
+        self.lg.propagate = self.prop
+        return False
+
+
 def refdom_of(kind):
     import skfem.refdom as R
     return {'line': R.RefLine, 'tri': R.RefTri, 'quad': R.RefQuad, 'tet': R.RefTet, 'hex': R.RefHex,
@@ -116,6 +142,8 @@ def build_element(spec):
         return E.ElementDG(build_element(spec['dg']))
     if 'comp' in spec:
         return E.ElementComposite(*[build_element(s) for s in spec['comp']])
+    if 'cond' in spec:                           # Element.condensed(): part 0 = interior functions, part 1 = the rest
+        return build_element(spec['cond']).condensed()[int(spec['part'])]
     raise MachineryError(f'bad element spec {spec}')
 
 
@@ -134,6 +162,8 @@ def label(spec):
         return f"DG({label(spec['dg'])})"
     if 'comp' in spec:
         return '*'.join(label(s) for s in spec['comp'])
+    if 'cond' in spec:
+        return f"Condensed({label(spec['cond'])})[{spec['part']}]"
     return '?'
 
 
@@ -144,7 +174,7 @@ def leaves(spec):
         return ['syn']
     if 'comp' in spec:
         return [x for s in spec['comp'] for x in leaves(s)]
-    return leaves(spec.get('vec') or spec.get('dg'))
+    return leaves(spec.get('vec') or spec.get('dg') or spec.get('cond'))
 
 
 def C(name, *args):
@@ -241,8 +271,23 @@ def extra_wrappers(kind):
     return []
 
 
+def condensed_parts(kind):
+    """Both parts of Element.condensed() (static condensation): the boundary part keeps a reference location table with
+    more rows than it has functions."""
+    K = lambda s, p: {'cond': s, 'part': p}
+    X = lambda *s: {'comp': list(s)}
+    base = {'line': [C('ElementLineP2'), C('ElementLineMini'), C('ElementLinePp', 3)],
+            'tri': [C('ElementTriMini'), C('ElementTriP3'), C('ElementTriCCR'), C('ElementTriP2B'), C('ElementTriP4'),
+                    C('ElementTriRT2'), C('ElementTriHermite'), X(C('ElementTriMini'), C('ElementTriP1'))],
+            'quad': [C('ElementQuad2'), C('ElementQuadP', 3), X(C('ElementQuad2'), C('ElementQuad1'))],
+            'tet': [C('ElementTetCCR'), C('ElementTetMini'), X(C('ElementTetMini'), C('ElementTetP1'))],
+            'hex': [C('ElementHex2')],
+            'wedge': []}[kind]
+    return [K(s, 1) for s in base] + [K(s, 0) for s in base[:2]]
+
+
 def catalogue(kind):
-    return exported_classes(kind) + wrappers(kind) + extra_wrappers(kind)
+    return exported_classes(kind) + wrappers(kind) + extra_wrappers(kind) + condensed_parts(kind)
 
 
 # ---------------------------------------------------------------- meshes from recipes
@@ -283,6 +328,34 @@ def periodic_rec(kind, axes, dirs, via='init_tensor'):
     return rec
 
 
+UNSORTING_OPS = {'oriented'}
+
+
+def history_rec(hist):
+    """Recipe of a mesh reached through an operation history; 'p' / 't' of the result are kept for bookkeeping."""
+    from . import meshops as MO
+    with warnings.catch_warnings():
+        warnings.simplefilter('ignore')
+        m = MO.build(hist)
+    kind = kind_of(m)
+    sc = find_scale(m.p) or 1
+    rec = mesh_rec(kind, m.p[:, :int(m.nvertices)], m.t[:NVERT[kind]], scale=sc)
+    rec['hist'] = hist
+    return rec
+
+
+def orientable(mesh, mrec):
+    """Precondition of SamePointFromAllCells for direction-dependent locations: a first-order triangle / segment mesh
+    of the library's sorted kind -- not built with sort_t = False by the caller, not passed through oriented()."""
+    if type(mesh).__name__ not in ('MeshTri1', 'MeshLine1'):
+        return 0
+    h = (mrec or {}).get('hist')
+    if h is not None:
+        if h['start'].get('ctor') == 'nosort' or any(op[0] in UNSORTING_OPS for op in h.get('ops', [])):
+            return 0
+    return 1
+
+
 def period_of(mrec):
     """Period per coordinate (0 = not periodic) of a periodic recipe, else None."""
     pr = mrec.get('periodic')
@@ -303,6 +376,9 @@ def make_mesh(mrec):
         warnings.simplefilter('ignore')
         if 'periodic' in mrec:
             return make_periodic(mrec)
+        if 'hist' in mrec:                       # mesh reached through an operation history (harness/meshops.py)
+            from . import meshops as MO
+            return MO.build(mrec['hist'])
         m = U.make(mrec['kind'], p, mrec['t'])
         if mrec.get('order', 1) == 2:        # second-order geometry (straight): same cells, extra geometry nodes
             import skfem
@@ -566,7 +642,7 @@ def composite_decode(elem):
     return {'sigs': [signature(e) for e in elem.elems], 'dec': dec}
 
 
-def number_event(mesh, elem, dofs, doflocs=None, drift=0, with_locs=None, period=None):
+def number_event(mesh, elem, dofs, doflocs=None, drift=0, with_locs=None, period=None, orient=None, warned=None):
     """with_locs: True when the tables come from a basis (its location table is then expected to exist)."""
     ev = {'a': 'Number', 'err': '', 'drift': int(drift), 'sig': signature(elem)}
     ev.update(mesh_tables(mesh))
@@ -575,6 +651,11 @@ def number_event(mesh, elem, dofs, doflocs=None, drift=0, with_locs=None, period
         with_locs = doflocs is not None
     ev['loc'] = loc_info(mesh, elem, doflocs) if with_locs else {'mode': 'none'}
     ev['dec'] = composite_decode(elem)
+    if orient is not None:
+        ev['orient'] = int(orient)
+    if warned is not None:                      # "Unable to calculate global DOF locations" logged while building the basis
+        ev['warn'] = int(warned)
+        ev['hasref'] = int(hasattr(elem, 'doflocs'))
     if period is not None:                      # periodic mesh: the identification is judged against the geometry
         sc = find_scale(mesh.p) or 1
         pc = cell_coords(mesh, sc)
